@@ -20,7 +20,7 @@ def one(sid):
     meta = json.load(open(meta_p))
     prop = meta["property"]
     slot = "rs_" + sid.replace("-", "_")
-    r = subprocess.run([os.path.join(ROOT, "lib/seedscreen.sh"), slot, os.path.join(ROOT, "seeded", sid, "patch.diff"), prop, "quick"], capture_output=True, text=True)
+    r = subprocess.run([os.path.join(ROOT, "lib/seedscreen.sh"), slot, os.path.join(ROOT, "seeded", sid, "patch.diff"), prop, "quick"], capture_output=True, text=True, errors="replace")
     out = r.stdout + r.stderr
     caught = "rc=1" in out and "violated" in out
     inconclusive = "rc=2" in out or "INCONCLUSIVE" in out
@@ -35,7 +35,10 @@ def main():
         i = args.index("-j")
         j = int(args[i + 1])
         del args[i:i + 2]
-    ids = sorted(os.listdir(os.path.join(ROOT, "seeded"))) if "--all" in args else args
+    ids = sorted(os.listdir(os.path.join(ROOT, "seeded"))) if "--all" in args or "--rest" in args else args
+    if "--rest" in args:
+        # only the changes that have no re-screen record yet
+        ids = [i for i in ids if "rescreen" not in json.load(open(os.path.join(ROOT, "seeded", i, "meta.json"))).get("detection", {})]
     commit = subprocess.run(["git", "-C", ROOT, "log", "-1", "--format=%h"], capture_output=True, text=True).stdout.strip()
     repo_commit = subprocess.run(["git", "-C", "/repo", "log", "-1", "--format=%h"], capture_output=True, text=True).stdout.strip()
     missed = []
